@@ -171,7 +171,7 @@ fn main() {
                     }
                 }
             };
-            while nconsumed < want && tries < 100_000 {
+            while nconsumed < want && tries < 4_000 {
                 tries += 1;
                 mine.append(&mut side2.lock().unwrap());
                 let mut r = (c.rand() as usize) % wsum;
